@@ -29,4 +29,28 @@ theorem C13 (workers : Nat) (h : 1 ≤ workers) : serves workers workersOccupied
 (blocking pool or OS thread), in every configuration. -/
 theorem C13_duties : duties.length ≥ 3 ∧ ∀ d ∈ duties, d ≠ Spawn.asyncWorker := by decide
 
+
+/-- the pool is smallest with one worker: `poolOk` is exactly "enough threads for every worker count from one upward" -/
+theorem poolOk_spec (p : Pool) (n : Nat) : poolOk p n = true ↔ ∀ w, 1 ≤ w → n ≤ poolSize p w := by
+  unfold poolOk
+  rw [decide_eq_true_iff]
+  constructor
+  · intro h w hw
+    cases p with
+    | default => simpa [poolSize] using h
+    | const c => simpa [poolSize] using h
+    | perWorker k =>
+      simp only [poolSize] at h ⊢
+      calc n ≤ 1 * k := h
+        _ ≤ w * k := Nat.mul_le_mul_right k hw
+    | workersPlus k => simp only [poolSize] at h ⊢; omega
+  · intro h; exact h 1 (Nat.le_refl 1)
+
+/-- **Every never-ending blocking duty has a thread of the blocking pool to itself, for every worker count from one
+upward** — with the runtime as `main.rs` builds it (`blockingPoolCfg`, regenerated: tokio's default pool, or the
+`max_blocking_threads` expression of a hand-built runtime). A pool sized from the worker count (`workers * k`) that is too
+small with one worker fails here. -/
+theorem C13_blocking_pool (w : Nat) (hw : 1 ≤ w) : blockingDuties duties ≤ poolSize blockingPoolCfg w :=
+  (poolOk_spec blockingPoolCfg (blockingDuties duties)).1 (by decide) w hw
+
 end Chokan.Props.C13
